@@ -23,7 +23,7 @@ PROP = {'lean': 'MpsProps.C02',
                'Mps.AlgGen.gen_frostKeygenVss',
                'Mps.AlgGen.gen_newPolynomialExponent',
                'Mps.AlgGen.gen_polyEvaluate'],
- 'suites': [{'name': 'sess-keygen', 'quick': 12, 'thorough': 200}, {'name': 'alg', 'quick': 600, 'thorough': 28000}],
+ 'suites': [{'name': 'sess-keygen', 'quick': 12, 'thorough': 200, 'shards': 8}, {'name': 'alg', 'quick': 600, 'thorough': 28000, 'shards': 8}],
  'propfields': {'sess-keygen': ['ok'], 'alg': ['valid', 'match', 'ok']},
  'level_text': 'Proof + judged sessions: the algebra behind the property is a set of Lean theorems over an arbitrary field / module (see theorem '
                'list); key material returned by real key generations (FROST, FROST-Taproot, Doerner, CMP) over random n, every threshold, '
